@@ -267,9 +267,9 @@ class GeffMetadata(BaseModel):
             if len(names) != len(set(names)):
                 raise ValueError(f"Duplicate axes names found in {names}")
 
-        # Display hint axes match names in axes
-        if self.axes is not None and self.display_hints is not None:
-            ax_names = [ax.name for ax in self.axes]
+        # Display hint axes match names in axes (no axes declared: no name can match)
+        if self.display_hints is not None:
+            ax_names = [ax.name for ax in self.axes] if self.axes is not None else []
             if self.display_hints.display_horizontal not in ax_names:
                 raise ValueError(
                     f"Display hint display_horizontal name {self.display_hints.display_horizontal} "
